@@ -722,3 +722,26 @@ func specHeaderAt(line []byte, c, ks, ke, vs, ve int) bool {
 //@   props C13
 //@   ensures [bits] r1 == (rsv&4 != 0) && r2 == (rsv&2 != 0) && r3 == (rsv&1 != 0)
 //@   assigns nothing
+
+// Sec-WebSocket-Accept (C10, C09): base64(SHA-1(key + GUID)). SHA-1 and base64 are not modelled:
+// the 28 accept bytes are an uninterpreted function of the 24 key bytes.
+func ufAccept(k0, k1, k2, k3, k4, k5, k6, k7, k8, k9, k10, k11, k12, k13, k14, k15, k16, k17, k18, k19, k20, k21, k22, k23 byte, i int) byte {
+	return 0
+}
+
+func specAccept(n []byte, i int) byte {
+	return ufAccept(n[0], n[1], n[2], n[3], n[4], n[5], n[6], n[7], n[8], n[9], n[10], n[11], n[12], n[13], n[14], n[15], n[16], n[17], n[18], n[19], n[20], n[21], n[22], n[23], i)
+}
+
+//@ func initAcceptFromNonce
+//@   trusted
+//@   requires [sizes] len(accept) == 28 && len(nonce) == 24
+//@   ensures  [accept] forall(0, 28, func(k int) bool { return accept[k] == specAccept(nonce, k) })
+//@   assigns bytes(accept)
+
+// The client accepts exactly the value the server computes from the key it was sent.
+//@ func checkAcceptFromNonce
+//@   props C10 C15
+//@   requires [nonce] len(nonce) == 24
+//@   ensures  [iff]   result == (len(accept) == 28 && forall(0, 28, func(k int) bool { return accept[k] == specAccept(nonce, k) }))
+//@   assigns nothing
